@@ -377,8 +377,26 @@ def r12_6(ctx):
             ctx.bad("R12.6", fi.module, fi.qual, norm(c, 80), "the folder scan calls Mailbox.create() for a SPECIAL-USE name without first finding its folder missing: a deleted-but-kept (\\Noselect) Archive/Junk/... becomes selectable again after a restart", c.lineno)
 
 
+def r12_7(ctx):
+    """The persisted lists (UIDs, message keys, every flag set) are written with compact_sequence() and read back with
+    expand_sequence().  UIDs and keys are paired by position and both are ascending, so the reader returns an *ascending*
+    list: a set or an unsorted list of the same numbers pairs key i with another UID after the restart."""
+    from .common import pm_of
+    p = ctx.p
+    fi = p.func("utils.expand_sequence")
+    ctx.analysed(fi)
+    rets = [r for r in body_walk(fi.node) if isinstance(r, ast.Return) and r.value is not None]
+    ctx.floor("R12.7", len(rets), 1, "returns of expand_sequence")
+    bad = [r for r in rets if not (isinstance(r.value, ast.Call) and isinstance(r.value.func, ast.Name) and r.value.func.id == "sorted" and not any(k.arg == "reverse" for k in r.value.keywords)) and not (isinstance(r.value, ast.List) and not r.value.elts)]
+    if bad:
+        ctx.bad("R12.7", fi.module, fi.qual, norm(bad[0]), "expand_sequence() no longer returns its numbers in ascending order: the UID and key lists restored from the database are paired by position, so after a restart the messages of a mailbox with a sparse UID set carry each other's UIDs (and UIDNEXT is computed from the wrong element)", bad[0].lineno)
+    else:
+        ctx.ok("R12.7", where(fi), "expand_sequence() returns sorted(...) on every path")
+
+
 def run(ctx):
     ctx.do(r12_5)
+    ctx.do(r12_7)
     res = ctx.do(r12_1)
     if res is None:
         return
@@ -389,5 +407,7 @@ def run(ctx):
     ctx.do(r12_6)
     from . import c13
     ctx.do(c13.r13_5)
+    from . import c03 as _c03b
+    ctx.do(_c03b.r3_6)  # what a shutdown commits is a pair of lists of equal length
     for k, v in PERSISTENT_FIELDS.items():
         ctx.trust(f"frozen persistent field: {k} - {v}")
